@@ -9,6 +9,7 @@ import (
 	"reflect"
 	"strconv"
 	"strings"
+	"verif/internal/norm"
 
 	. "github.com/dave/jennifer/jen"
 )
@@ -287,6 +288,20 @@ func (c *Conv) expr(e ast.Expr) *Statement {
 		for _, el := range e.Elts {
 			if _, ok := el.(*ast.KeyValueExpr); !ok {
 				allKV = false
+			}
+		}
+		if allKV && norm.SimpleKeys(e.Elts) {
+			// keys that are plain literals or identifiers: Dict writes its pairs in the order of the
+			// keys' text, so it is the element for this literal exactly when the source has that
+			// order (then the order must survive); otherwise the pairs are written out one by one
+			var texts []string
+			for _, el := range e.Elts {
+				texts = append(texts, fmt.Sprintf("%#v", c.expr(el.(*ast.KeyValueExpr).Key)))
+			}
+			for i := 1; i < len(texts); i++ {
+				if texts[i-1] >= texts[i] {
+					allKV = false
+				}
 			}
 		}
 		if allKV {
